@@ -211,11 +211,15 @@ def check_chain(arg: tuple[str, dict, str, int]) -> str | None:
     model = kaisa.make_model(model_name, seed, dtype)
     x, y = kaisa.make_batch(cfg, seed, 0, 0, 0, dtype)
 
+    rng: list[torch.Tensor] = []
+
     def fb(train: bool):
         model.train(train)
         model.zero_grad(set_to_none=True)
+        torch.manual_seed(1234 + seed)     # stochastic layers: same draws
         out = model(x)
         kaisa.loss_fn(out, y, out.shape[0], None).backward()
+        rng.append(torch.get_rng_state())
         return out.detach().clone(), {
             n: p.grad.detach().clone() for n, p in model.named_parameters()}
 
@@ -225,6 +229,9 @@ def check_chain(arg: tuple[str, dict, str, int]) -> str | None:
         out1, g1 = fb(True)
     except RuntimeError as e:
         return f'forward/backward fails once K-FAC is registered: {str(e)[:150]}'
+    if not torch.equal(rng[0], rng[1]):
+        return ('global random state consumed by the K-FAC hooks (a '
+                'stochastic layer would draw other numbers)')
     if not same(out0, out1):
         return 'model output changed by registering K-FAC'
     for n in g0:
@@ -324,6 +331,8 @@ def main(tier: str, seed: int) -> int:
                   for i, m in enumerate(CHAIN_MODELS)
                   for vv in CHAIN_VARIANTS
                   for meth in ('eigen', 'inverse')]
+    chain_jobs += [('bigconv', dict(batch=8), meth, seed)
+                   for meth in ('eigen', 'inverse')]
     cres = pmap(_chain_one, chain_jobs)
     for a, msg in zip(chain_jobs, cres):
         if msg:
